@@ -401,5 +401,209 @@ theorem nonTerminatingLinebreaks_eq : Gen.CnfToken.nonTerminatingLinebreaks = Cn
           | error e => rfl
           | ok a => rfl
 
+/-! ### `clause_lits` (the literal loop; see `tools/unit_cnftoken.py` for the out-parameter convention) -/
+
+section ClauseLits
+open PM Gen.CnfToken
+
+theorem litInt_eq' :
+    (Gen.CnfToken.int Cnf.isizeTy >>= fun t =>
+        CnfTokenExt.mapErr t fun _ => (Cnf.exceedsVarCount : PM (Option Int))) = Cnf.litInt := by
+  rw [int_eq]
+  unfold Cnf.litInt CnfTokenExt.mapErr
+  congr 1
+  funext o
+  rcases o with _ | (_ | v) <;> rfl
+
+theorem ite_bind {α β : Type} (c : Prop) [Decidable c] (a b : PM α) (f : α → PM β) :
+    ((if c then a else b) >>= f) = if c then a >>= f else b >>= f := by
+  split <;> rfl
+
+theorem unexpected_bind {α β : Type} (f : α → PM β) : ((Cnf.unexpected : PM α) >>= f) = Cnf.unexpected := by
+  unfold Cnf.unexpected
+  simp only [bind_assoc, ite_bind, giveUp_bind]
+
+/-- The literal loop's result as the model's. -/
+def litsPost (r : Except PErr (Ctl (List Int × Int) (Option (List Int))) × LR) : Except PErr (List Int) × LR :=
+  match r with
+  | (.ok (Ctl.brk (lits, _)), s) => (.ok lits, s)
+  | (.ok Ctl.fuel, s) => (.error (.panic "fuel"), s)
+  | (.ok (Ctl.ret _), s) => (.error (.panic "unreachable"), s)
+  | (.error e, s) => (.error e, s)
+
+def postM (x : PM (Ctl (List Int × Int) (Option (List Int)))) : PM (List Int) := fun lr => litsPost (x lr)
+
+theorem postM_bind {α : Type} (x : PM α) (f : α → PM (Ctl (List Int × Int) (Option (List Int)))) :
+    postM (x >>= f) = x >>= fun a => postM (f a) := by
+  funext lr
+  show litsPost ((x >>= f) lr) = _
+  rw [bind_apply, bind_apply]
+  rcases x lr with ⟨r, s⟩
+  cases r <;> rfl
+
+theorem postM_ite (c : Prop) [Decidable c] (a b : PM (Ctl (List Int × Int) (Option (List Int)))) :
+    postM (if c then a else b) = if c then postM a else postM b := by
+  split <;> rfl
+
+theorem postM_exceeds : postM (Cnf.exceedsVarCount) = Cnf.exceedsVarCount := by
+  have := postM_bind (Cnf.exceedsVarCount : PM Unit) (fun _ => (pure Ctl.fuel))
+  rw [exceedsVarCount_bind, exceedsVarCount_bind] at this
+  exact this
+
+theorem postM_unexpected : postM (Cnf.unexpected) = Cnf.unexpected := by
+  have := postM_bind (Cnf.unexpected : PM Unit) (fun _ => (pure Ctl.fuel))
+  rw [unexpected_bind, unexpected_bind] at this
+  exact this
+
+theorem clauseLits_loop (l : Cnf.LitTy) (limit : Int) (hard : Bool) (fuel : Nat) :
+    ∀ (lits : List Int) (lit : Int),
+      postM (clauseLits.loop1 l limit hard fuel (lits, lit)) = Cnf.clauseLitsLoop l limit fuel lit lits.reverse := by
+  induction fuel with
+  | zero => intro lits lit; rfl
+  | succ fuel ih =>
+    intro lits lit
+    rw [clauseLits.loop1, Cnf.clauseLitsLoop]
+    by_cases h0 : lit = 0
+    · subst h0
+      funext lr
+      simp [postM, litsPost]
+      rfl
+    · have e0 : (lit != 0) = true := by simpa using h0
+      have e0' : (lit == 0) = false := by simpa using h0
+      simp only [e0, e0', Bool.not_true, Bool.false_eq_true, if_false]
+      by_cases hr : -limit ≤ lit ∧ lit ≤ limit
+      · have hd : (decide (-limit ≤ lit) && decide (lit ≤ limit)) = true := by simp [hr]
+        have hrev : (lits ++ [l.fromDimacs lit]).reverse = l.fromDimacs lit :: lits.reverse := by simp
+        rw [if_pos hr]
+        simp only [hd, if_true, postM_bind, bind_assoc, nonTerminatingLinebreaks_eq]
+        congr 1; funext _
+        rw [← litInt_eq', bind_assoc]
+        congr 1; funext t3
+        congr 1; funext t4
+        rcases t4 with _ | next
+        · simp only [postM_bind]
+          congr 1; funext t5
+          cases t5
+          · simp only [Bool.false_eq_true, if_false, unexpected_bind, postM_unexpected]
+          · simp only [if_true, postM_bind, bind_assoc]
+            congr 1; funext _
+            unfold PM.orGiveUp
+            rw [bind_assoc, bind_assoc]
+            congr 1; funext t6
+            congr 1; funext t7
+            rcases t7 with _ | nx
+            · simp only [CnfTokenExt.orGiveUp, unexpected_bind]
+            · simp only [CnfTokenExt.orGiveUp, pure_bind]
+              rw [ih, hrev]
+        · simp only
+          rw [ih, hrev]
+      · have hd : (decide (-limit ≤ lit) && decide (lit ≤ limit)) = false := by
+          by_cases h1 : -limit ≤ lit
+          · have h2 : ¬ lit ≤ limit := fun h => hr ⟨h1, h⟩
+            simp [h1, h2]
+          · simp [h1]
+        rw [if_neg hr]
+        simp only [hd, Bool.false_eq_true, if_false, exceedsVarCount_bind, postM_exceeds]
+
+abbrev LoopT := Ctl (List Int × Int) (Option (List Int))
+
+/-- A loop computation that never reports a `return` of the enclosing function. -/
+def NoRet (x : PM LoopT) : Prop := ∀ lr v s, x lr ≠ (.ok (Ctl.ret v), s)
+
+theorem noRet_pure_brk (m : List Int × Int) : NoRet (pure (Ctl.brk m)) := by
+  intro lr v s h; cases h
+theorem noRet_pure_fuel : NoRet (pure Ctl.fuel) := by
+  intro lr v s h; cases h
+
+theorem noRet_bind {α : Type} (x : PM α) (f : α → PM LoopT) (hf : ∀ a, NoRet (f a)) : NoRet (x >>= f) := by
+  intro lr v s h
+  rw [bind_apply] at h
+  rcases hx : x lr with ⟨r, s1⟩
+  rw [hx] at h
+  cases r with
+  | error e => cases h
+  | ok a => exact hf a s1 v s h
+
+theorem noRet_ite (c : Prop) [Decidable c] (a b : PM LoopT) (ha : NoRet a) (hb : NoRet b) : NoRet (if c then a else b) := by
+  split <;> assumption
+
+theorem noRet_of_bind_absorb (x : PM LoopT) (h : ∀ (f : LoopT → PM LoopT), (x >>= f) = x) : NoRet x := by
+  intro lr v s hx
+  have := congrFun (h (fun _ => throw .io)) lr
+  rw [bind_apply, hx] at this
+  cases this
+
+theorem noRet_unexpected : NoRet (Cnf.unexpected) := noRet_of_bind_absorb _ (fun f => unexpected_bind f)
+theorem noRet_exceeds : NoRet (Cnf.exceedsVarCount) := noRet_of_bind_absorb _ (fun f => exceedsVarCount_bind f)
+
+theorem loop_noRet (l : Cnf.LitTy) (limit : Int) (hard : Bool) (fuel : Nat) :
+    ∀ (lits : List Int) (lit : Int), NoRet (clauseLits.loop1 l limit hard fuel (lits, lit)) := by
+  induction fuel with
+  | zero => intro lits lit; exact noRet_pure_fuel
+  | succ fuel ih =>
+    intro lits lit
+    rw [clauseLits.loop1]
+    apply noRet_ite
+    · exact noRet_pure_brk _
+    · -- the tail after the range test is the same in both branches
+      have tail : ∀ (ls : List Int), NoRet (do
+          PM.setMark
+          let t3 ← Gen.CnfToken.int Cnf.isizeTy
+          let t4 ← CnfTokenExt.mapErr t3 fun _ => (Cnf.exceedsVarCount : PM (Option Int))
+          match t4 with
+          | some next_lit => clauseLits.loop1 l limit hard fuel (ls, next_lit)
+          | _ => do
+            let t5 ← Gen.CnfToken.nonTerminatingLinebreaks
+            if t5 then do
+              PM.setMark
+              let t6 ← Gen.CnfToken.int Cnf.isizeTy
+              let t7 ← CnfTokenExt.mapErr t6 fun _ => (Cnf.exceedsVarCount : PM (Option Int))
+              let t8 ← CnfTokenExt.orGiveUp t7 Cnf.unexpected
+              clauseLits.loop1 l limit hard fuel (ls, t8)
+            else do
+              (Cnf.unexpected : PM Unit)
+              clauseLits.loop1 l limit hard fuel (ls, lit)) := by
+        intro ls
+        refine noRet_bind _ _ fun _ => noRet_bind _ _ fun _ => noRet_bind _ _ fun t4 => ?_
+        rcases t4 with _ | nx
+        · refine noRet_bind _ _ fun t5 => ?_
+          cases t5
+          · simp only [Bool.false_eq_true, if_false, unexpected_bind]
+            exact noRet_unexpected
+          · simp only [if_true]
+            exact noRet_bind _ _ fun _ => noRet_bind _ _ fun _ => noRet_bind _ _ fun _ => noRet_bind _ _ fun _ => ih _ _
+        · exact ih _ _
+      apply noRet_ite
+      · exact tail _
+      · rw [exceedsVarCount_bind]
+        exact noRet_exceeds
+
+theorem clauseLits_eq (l : Cnf.LitTy) (limit : Int) (hard : Bool) :
+    Gen.CnfToken.clauseLits l limit hard = Cnf.clauseLits l limit := by
+  unfold Gen.CnfToken.clauseLits Cnf.clauseLits
+  simp only [bind_assoc]
+  congr 1; funext _
+  rw [← litInt_eq', bind_assoc]
+  congr 1; funext t1
+  congr 1; funext t2
+  rcases t2 with _ | lit
+  · rfl
+  · simp only [PMExt.getLR]
+    congr 1; funext lr
+    have h := clauseLits_loop l limit hard (lr.v.rest.length + 2) [] lit
+    funext s
+    have hs := congrFun h s
+    simp only [postM, List.reverse_nil] at hs
+    rw [bind_apply, bind_apply, ← hs]
+    rcases hl : clauseLits.loop1 l limit hard (lr.v.rest.length + 2) ([], lit) s with ⟨r, s'⟩
+    rcases r with e | c
+    · rfl
+    · rcases c with ⟨lits, x⟩ | v | _
+      · rfl
+      · exact absurd hl (loop_noRet l limit hard _ [] lit s v s')
+      · rfl
+
+end ClauseLits
+
 end TieCnfTokenAux
 end Flussab
